@@ -307,5 +307,7 @@ def sorted_tests(suite_or_case, unpack_outer=False):
         raise ValueError(f"Duplicate test ids detected: {pformat(duplicates)}")
 
     tests = _flatten_tests(suite_or_case, unpack_outer=unpack_outer)
-    tests.sort()
+    # A custom suite without tests has no id to sort by (None): put those
+    # first, and never fall back to comparing the test objects themselves.
+    tests.sort(key=lambda item: (item[0] is not None, item[0] or ""))
     return unittest.TestSuite([test for (sort_key, test) in tests])
